@@ -89,7 +89,7 @@ class SimSocket:
         self.rx_log = bytearray()     # peer side: everything the other end successfully sent me
         self.accepted = False
         self.sh_hdr = None
-        self.sh_need = 0
+        self.sh_buf = bytearray()
         self.tag = None               # harness label (actor name)
 
     # identity -----------------------------------------------------------------
@@ -299,11 +299,18 @@ class SimSocket:
         peer = self.peer
         if self.side == "mgr" and not _retry:
             # shadow parser over every attempted write (successful or not): which frame is this?
-            if self.sh_need <= 0 and len(data) == net.hs:
-                self.sh_hdr = unpack_hdr(net.timecode, data)
-                self.sh_need = max(0, self.sh_hdr.num_data_bytes)
-            else:
-                self.sh_need -= len(data)
+            # (a byte-stream parser, so it does not depend on how the writer chunks its sendall calls)
+            buf = self.sh_buf
+            buf += data
+            hs = net.hs
+            while len(buf) >= hs:
+                h = unpack_hdr(net.timecode, buf)
+                self.sh_hdr = h
+                need = hs + max(0, h.num_data_bytes)
+                if len(buf) >= need:
+                    del buf[:need]
+                else:
+                    break
         # 1. an RST has already reached me
         if self.rx_rst == 2:
             self.write_failed = True
